@@ -14,8 +14,10 @@ ASSUMPTIONS = [
     "formula meaning in the theorems is an arbitrary function of the precedents' values; in the "
     "differential run it is the concrete language of coq/Model/GraphExpr.v (operators through the C10 "
     "operator model, aggregates through the generated C14 functions)",
-    "workbooks are single-sheet, cells in one column, ranges are contiguous blocks; unbounded ranges, "
-    "defined names and CSE arrays are exercised by C05/C13, not here",
+    "workbooks are single-sheet; cells in one column, ranges are contiguous blocks - plus, in the unb streams, a "
+    "second column of constants with the whole-column reference S!B:B (a node of range kind, alias of the bounded "
+    "range node: Model/GraphExpr.v FAlias, Proofs/C01Alias.v); row references (1:1), references that span "
+    "several columns, defined names and CSE arrays are exercised by C05/C13, not here",
     "openpyxl, networkx and the xlsx reader are not modelled: the stored-results configuration reads "
     "real .xlsx files whose cached values were injected into the sheet XML",
 ]
@@ -250,7 +252,8 @@ def run(ctx):
 
 
 def unbounded_stream(ctx):
-    """Oracle-only (unbounded ranges are not in Model/Graph.v): data in column A, formulas in columns B/C
+    """Oracle-only (older than the model-backed unb streams above; kept: formulas in several columns, float data,
+    formulas that read other formulas over A:A): data in column A, formulas in columns B/C
     over A:A and over row ranges holding only data; histories of writes to members and evaluations; every
     evaluate must equal a from-scratch compile (repair 347fec5: the A:A reference had no graph edge)."""
     import openpyxl
